@@ -24,6 +24,7 @@ func init() {
 			"O6 conversions and dynamic switching: switchToSharding/switchToBasic add every enumerated link under its own name (x.Name, x) and propagate an error of the insertion; DynamicDirectory applies the requested AddChild/RemoveChild (same name, same node) to the new directory before installing it; " +
 			"O7 (R-SIB) every enumeration path of the HAMT hands out links named by Shard.key (prefix stripped): walkTrie/ForEachLink and both branches of walkChildren. " +
 			"O8 (R-FLOW, serialisation) Shard.Node writes every child under linkNamePrefix(slot)+label where slot is the very index tested with childer.has on that path, label is the child's key (loaded child, whose Link() is written) or the stored link's name cut at maxpadlen (unloaded child, whose stored link is written); the child/link is taken at the dense slice counter, which is advanced exactly on the has()==true paths; the UnixFS data carries this shard's bitfield and tableSize; " +
+			"O10 (R-FLOW) every exported Shard method that starts a trie walk (swapValue/getValue family) passes hash bits built from exactly the string it passes as key; " +
 			"O9 (R-FLOW, reload) NewHamtFromDag builds the shard with the node's own Fanout() and fills the childer from the same node's Data()/Links(); makeChilder sizes children by len(links), loads the bitfield from the data and keeps the links; " +
 			"NOT decided: equivalence with a map model, reload equality, bit extraction arithmetic of hashBits.next, concurrency of parallelShardWalk.",
 		Assume: []string{
@@ -65,6 +66,60 @@ func runC15(c *an.Ctx) {
 	c15Enumerations(c)
 	c15Serialise(c)
 	c15Reload(c)
+	c15HashKey(c)
+}
+
+// ---- O10: the hash bits and the key handed to the trie walk belong to one name
+func c15HashKey(c *an.Ctx) {
+	p := c.P
+	n := 0
+	for _, f := range p.Methods(c15H, "Shard") {
+		if f.Object() == nil || !f.Object().Exported() {
+			continue
+		}
+		for _, call := range an.AllCalls(f) {
+			g := an.Callee(call).Static
+			if g == nil || g.Signature.Recv() == nil || !an.TypeIs(g.Signature.Recv().Type(), c15H, "Shard") {
+				continue
+			}
+			var hv, key ssa.Value
+			for _, a := range an.Args(call) {
+				switch {
+				case c15HR.isHashBits(a.Type()):
+					hv = a
+				case an.IsString(a.Type()) && key == nil:
+					key = a
+				}
+			}
+			if hv == nil || key == nil {
+				continue
+			}
+			// hv = <constructor taking only the name>(x)
+			var hashed []ssa.Value
+			for _, r := range an.Roots(hv, nil) {
+				mk, ok := r.(*ssa.Call)
+				if !ok || mk.Call.StaticCallee() == nil || len(mk.Call.Args) != 1 || !an.IsString(mk.Call.Args[0].Type()) {
+					hashed = nil
+					break
+				}
+				hashed = append(hashed, mk.Call.Args[0])
+			}
+			if len(hashed) == 0 {
+				continue
+			}
+			n++
+			ok := true
+			for _, x := range hashed {
+				if x != key && !an.SameObj(x, key) {
+					ok = false
+				}
+			}
+			c.Check(ok, "O10", "R-FLOW", an.FuncName(f), "trie-walk(hash(name),key=name)", call.Pos(),
+				"hash bits and key of the trie walk come from the same name",
+				an.FuncName(f)+" walks the trie with hash bits computed from one string and the key being another: the entry is stored/looked up in the slot of a different name than the one it is compared with, so a later lookup, replacement or removal under the entry's name does not find it (the directory stops behaving as a map)")
+		}
+	}
+	c.Min("O10 trie walks started by exported Shard methods", n, 1)
 }
 
 // ---- O1 (io)
